@@ -72,6 +72,13 @@ struct vm_table_entry
   void* fn = nullptr;  // guest function / callback interceptor
   void* key = nullptr; // callback unique key
   const char* name = nullptr;
+  const void* sig = nullptr; // signature tag of a callback entry (call_indirect traps on mismatch)
+};
+
+template<typename T_Ret, typename... T_Args>
+struct vm_sig_tag
+{
+  static inline const char tag = 0;
 };
 
 template<typename T_Sbx>
@@ -120,6 +127,20 @@ public:
 
   // test knob: make the next create fail
   static inline bool fail_next_create = false;
+  // test knob: number of callback entry points new instances offer (<= NSlots)
+  static inline unsigned default_usable_slots = NSlots;
+  unsigned usable_slots = NSlots;
+  // test knob: keep destroyed regions reserved (PROT_NONE) until release_deferred(), so
+  // that region addresses are never reused within one execution
+  static inline bool defer_unmap = false;
+  static inline std::vector<std::pair<void*, size_t>> deferred;
+  static void release_deferred()
+  {
+    for (auto& d : deferred) {
+      munmap(d.first, d.second);
+    }
+    deferred.clear();
+  }
 
 private:
 #ifndef VM_EMBEDDER_TLS
@@ -146,6 +167,9 @@ public:
       return false;
     }
     if (e.kind == vm_table_entry::CALLBACK) {
+      if (e.sig != &vm_sig_tag<T_Ret, T_Args...>::tag) {
+        return false; // indirect call with the wrong signature traps
+      }
       tls().last_callback_invoked = idx - SlotBase;
     }
     using T_Func = T_Ret (*)(T_Args...);
@@ -203,6 +227,7 @@ protected:
     bump = 8;
     reported_total = RegionSize;
     malloc_override = false;
+    usable_slots = default_usable_slots < NSlots ? default_usable_slots : NSlots;
     lib = library;
     for (auto& e : table) {
       e = vm_table_entry{};
@@ -225,7 +250,12 @@ protected:
   inline void impl_destroy_sandbox()
   {
     if (map_addr != nullptr) {
-      munmap(map_addr, map_len);
+      if (defer_unmap) {
+        mprotect(map_addr, map_len, PROT_NONE);
+        deferred.emplace_back(map_addr, map_len);
+      } else {
+        munmap(map_addr, map_len);
+      }
     }
     map_addr = nullptr;
     base = 0;
@@ -369,15 +399,17 @@ protected:
   template<typename T_Ret, typename... T_Args>
   inline T_PointerType impl_register_callback(void* key, void* callback)
   {
-    for (unsigned s = 0; s < NSlots; s++) {
+    for (unsigned s = 0; s < usable_slots; s++) {
       vm_table_entry& e = table[SlotBase + s];
       if (e.kind == vm_table_entry::EMPTY) {
         e.kind = vm_table_entry::CALLBACK;
         e.fn = callback;
         e.key = key;
+        e.sig = &vm_sig_tag<T_Ret, T_Args...>::tag;
         return static_cast<T_PointerType>(SlotBase + s);
       }
     }
+    // like the bundled backends: no free entry point -> the registration is refused
     detail::dynamic_check(false, "vm backend: no free callback slot");
     return 0;
   }
